@@ -1,4 +1,5 @@
 import O2oModel.Expand
+import O2oModel.WF
 open O2o
 
 def outcomeLine : Outcome → String
@@ -19,7 +20,11 @@ def handle (b : Back) (line : String) : Option String :=
       | some ts =>
         match decodeInput ts with
         | none => some ("MOD " ++ id ++ " BADINPUT")
-        | some inp => some ("MOD " ++ id ++ " " ++ outcomeLine (derive b inp))
+        | some inp =>
+          -- the hypothesis of C16_validated_only_findings, tested on every parsed input
+          match parseInput b inp with
+          | some dt => if dt.pathsWF then some ("MOD " ++ id ++ " " ++ outcomeLine (derive b inp)) else some ("MOD " ++ id ++ " WFVIOLATION")
+          | none => some ("MOD " ++ id ++ " " ++ outcomeLine (derive b inp))
   | _ => none
 
 partial def loop (b : Back) (h : IO.FS.Stream) (out : IO.FS.Stream) : IO Unit := do
